@@ -137,14 +137,15 @@ theorem matchC_transparent (ic : Bool) (k : Cache) (name pat : String) (h : Cach
     · subst he; rfl
 
 theorem matchC_bounded (ic : Bool) (k : Cache) (name pat : String)
-    (h : k.length ≤ Generated.maxCache) : (matchC ic k name pat).2.length ≤ Generated.maxCache := by
+    (h : k.length ≤ max Generated.maxCache 1) :
+    (matchC ic k name pat).2.length ≤ max Generated.maxCache 1 := by
   unfold matchC
   cases hf : k.find? (fun e => e.1 == (pat, ic)) with
   | some e => exact h
   | none =>
     simp only [List.length_append, List.length_singleton]
     split
-    · simp [Generated.maxCache]
+    · simp only [List.length_nil]; omega
     · rename_i hlt
       simp only [ge_iff_le, Nat.not_le] at hlt
       omega
